@@ -311,36 +311,60 @@ def _delta(e):
     return None
 
 
-def _eval(e, env, free):
+def _first_bool_param(fv):
+    """Table::insert(.., filtered: bool, nexthop_invalid: bool, ..): `filtered` is the first bool parameter."""
+    for l in range(1, fv.f["argc"] + 1):
+        if fv.f["locals"][l] == "bool":
+            return fv.local_name.get(l)
+    return None
+
+
+def _var_types(fv, name):
+    return {fv.f["locals"][l] for l, n in fv.local_name.items() if n == name and l < len(fv.f["locals"])}
+
+
+def _eval(e, env, free, fv=None):
     """Three-valued evaluation of a guard expression under `env` (atom -> label); unknown atoms are recorded in `free`."""
     if isinstance(e, tuple) and e:
         if e[0] == "un" and e[1] == "Not":
-            v = _eval(e[2], env, free)
+            v = _eval(e[2], env, free, fv)
             return {"true": "false", "false": "true"}.get(v, v)
         if e[0] == "bin" and e[1] in ("Eq", "Ne", "BitAnd", "BitOr", "BitXor"):
-            a, b = _eval(e[2], env, free), _eval(e[3], env, free)
+            a, b = _eval(e[2], env, free, fv), _eval(e[3], env, free, fv)
             if a in ("true", "false") and b in ("true", "false"):
                 a, b = a == "true", b == "true"
                 v = {"Eq": a == b, "Ne": a != b, "BitXor": a != b, "BitAnd": a and b, "BitOr": a or b}[e[1]]
                 return "true" if v else "false"
         if e[0] in ("ref", "deref"):
-            return _eval(e[1], env, free)
-    key = _atom(e)
+            return _eval(e[1], env, free, fv)
+    key = _atom(e, fv)
+    if key.startswith("R?"):
+        if "R" not in env:
+            free.add("R")
+            return None
+        return "true" if (env["R"] == "Some") == (key == "R?is_some") else "false"
     if key not in env:
         free.add(key)
     return env.get(key)
 
 
-def _atom(e):
+def _atom(e, fv=None):
+    """Atoms are identified by what they are, not by how the locals are called: R = the discriminant of an Option<RibEntry>
+    (the entry taken out of the path list), O = RibEntry::is_filtered() of it, F = the `filtered` parameter of Table::insert."""
     e0 = e
     while isinstance(e, tuple) and e and e[0] in ("ref", "deref"):
         e = e[1]
     if isinstance(e, tuple) and e:
-        if e[0] == "discr" and "replaced" in expr_vars(e):
-            return "R"
+        if e[0] in ("discr",) or (e[0] == "call" and re.search(r"Option::<T>::is_(some|none)$", e[1])):
+            inner = e[1] if e[0] == "discr" else (e[2][0] if e[2] else None)
+            while isinstance(inner, tuple) and inner and inner[0] in ("ref", "deref"):
+                inner = inner[1]
+            if isinstance(inner, tuple) and inner and inner[0] == "var" and fv is not None and \
+                    any(re.search(r"Option<(&)?(RibEntry|rustybgp_table::RibEntry)>", t) for t in _var_types(fv, inner[1])):
+                return "R" if e[0] == "discr" else "R?" + e[1].split("::")[-1]
         if e[0] == "call" and e[1].endswith("RibEntry::is_filtered"):
             return "O"
-        if e[0] == "var" and e[1] == "filtered":
+        if e[0] == "var" and fv is not None and e[1] == _first_bool_param(fv):
             return "F"
     return "?" + show(e0, 120)
 
@@ -374,7 +398,7 @@ def check_stat_table(prog, r):
             if (show(g), l) in common:
                 continue
             fr = set()
-            _eval(g, {}, fr)
+            _eval(g, {}, fr, fv)
             for a in fr:
                 atoms.add(a)
                 if a not in dom:
@@ -392,7 +416,7 @@ def check_stat_table(prog, r):
         n += 1
         got = {"accepted": 0, "received": 0}
         for name, d, bi, gs in writes:
-            if all((show(g), l) in common or _eval(g, env, set()) in l for g, l in gs):
+            if all((show(g), l) in common or _eval(g, env, set(), fv) in l for g, l in gs):
                 got[name] += d
         newu = 0 if env["F"] == "true" else 1
         oldu = 0 if (env["R"] == "None" or env["O"] == "true") else 1
